@@ -162,13 +162,41 @@ class Body:
         return [d for d in self.defs.get(l, []) if d[1] != "partial"]
 
     # -- constant locals (for branch folding) -------------------------------------------------
-    def const_of_local(self, l):
+    def const_of_local(self, l, _depth=0):
         ds = self.defs.get(l, [])
+        dead = getattr(self, "_dead_blocks", None)
+        if dead:
+            ds = [d for d in ds if d[0].bb not in dead]
         if len(ds) == 1 and ds[0][1] == "assign":
             rv = ds[0][2]["rv"]
             if rv["k"] == "use" and "k" in rv["o"] and "v" in rv["o"]["k"]:
                 return int(rv["o"]["k"]["v"])
+            if rv["k"] == "use" and _depth < 4:
+                p = rv["o"].get("c") or rv["o"].get("m")
+                if p is not None and not p["pj"] and p["l"] != l and not (1 <= p["l"] <= self.argc):
+                    return self.const_of_local(p["l"], _depth + 1)
+        if len(ds) > 1 and all(d[1] == "assign" and d[2]["rv"]["k"] == "use" and "k" in d[2]["rv"]["o"] and "v" in d[2]["rv"]["o"]["k"] for d in ds):
+            vs = {int(d[2]["rv"]["o"]["k"]["v"]) for d in ds}
+            if len(vs) == 1 and not (1 <= l <= self.argc):
+                return vs.pop()
         return None
+
+    def refine_dead_blocks(self):
+        """Iterate constant-branch folding: definitions that sit in unreachable blocks do not count when
+        deciding whether a tested local is constant (e.g. `let r = true; let r = r || f();`)."""
+        if getattr(self, "_refined", False):
+            return
+        self._refined = True
+        for _ in range(4):
+            self._succ_cache = {}
+            self._dom = {}
+            live = self.reachable(0, "full")
+            dead = set(range(len(self.blocks))) - live
+            if dead == getattr(self, "_dead_blocks", set()):
+                break
+            self._dead_blocks = dead
+        self._succ_cache = {}
+        self._dom = {}
 
     def operand_const(self, op):
         if "k" in op:
@@ -693,7 +721,9 @@ class Facts:
             info = self.bodies_raw.get(path)
             if info is None:
                 return None
-            self._bodies[path] = Body(self, path, info)
+            b = Body(self, path, info)
+            b.refine_dead_blocks()
+            self._bodies[path] = b
         return self._bodies[path]
 
     def find(self, rx):
